@@ -566,7 +566,7 @@ func (w *World) mutateChain(blocks []*JBlock, forced ...string) ([]*JBlock, stri
 	j := 1 + r.Intn(len(bs)-1)
 	var b *JBlock
 	kind := []string{"ts-shift", "future", "two-rewards", "no-reward", "big-reward", "tx-late", "tx-early", "bad-link",
-		"truncate", "drop-first", "reward-yield", "dup-tx", "added-bogus", "removed-bogus", "stale", "big-reward-1", "unlist-yield", "yield-unlisted", "yield-unlisted", "double-spend", "double-spend", "yield-removed", "yield-removed"}[r.Intn(23)]
+		"truncate", "drop-first", "reward-yield", "dup-tx", "added-bogus", "removed-bogus", "stale", "big-reward-1", "unlist-yield", "yield-unlisted", "yield-unlisted", "double-spend", "double-spend", "yield-removed", "yield-removed", "reward-extra-output"}[r.Intn(24)]
 	if len(forced) > 0 {
 		kind = forced[0]
 	}
@@ -704,6 +704,14 @@ func (w *World) mutateChain(blocks []*JBlock, forced ...string) ([]*JBlock, stri
 				o.Value += 1 + r.U64n(1<<40)
 			}
 			rt.Outputs = []*JOutput{&o}
+			rt.Id = rt.ComputeId()
+		}
+	case "reward-extra-output":
+		// the reward written with an empty inputs list instead of null, and a second output beside the
+		// one the fees cover: a reward has one output, however its (absent) inputs are spelled
+		if rt := findReward(); rt != nil {
+			rt.Inputs = []*JInput{}
+			rt.Outputs = append(rt.Outputs, &JOutput{w.wallets[r.Intn(len(w.wallets))].Addr, false, 1 << 40})
 			rt.Id = rt.ComputeId()
 		}
 	case "tx-late", "tx-early":
